@@ -268,6 +268,8 @@ impl Engine {
     /// reset everything (new scenario)
     pub fn reset_all(&mut self) {
         *self = Engine::default();
+        // U-term 0 is reserved: it is what an all-zero-bits SymU denotes (bytemuck::Zeroable)
+        self.umk(UNode::Var("zeroed".to_string()));
     }
     /// reset the per-run recorder, keep DAG + trail (new path of same scenario)
     pub fn reset_run(&mut self) {
